@@ -43,19 +43,28 @@ def urls_from_text(string):
 
         matched = url
 
-        # NOTE: the pattern lets typographic blanks through as letters of a tld
-        url = url.rstrip()
+        # NOTE: the pattern lets typographic blanks through as letters of a tld,
+        # and blanks can hide behind the punctuation that is trimmed
+        while True:
+            url = url.rstrip()
 
-        last_punct = None
+            last_punct = None
 
-        stop = len(url) - 1
-        i = stop
+            stop = len(url) - 1
+            i = stop
 
-        while i != 0 and url[i] in IRRELEVANT_PUNCTUATION and url[i] != last_punct:
-            last_punct = url[i]
-            i -= 1
+            while (
+                i > 0
+                and url[i] in IRRELEVANT_PUNCTUATION
+                and url[i] != last_punct
+            ):
+                last_punct = url[i]
+                i -= 1
 
-        if i != stop:
+            if i == stop or url[: i + 1].rstrip() == url[: i + 1]:
+                url = url[: i + 1]
+                break
+
             url = url[: i + 1]
 
         # NOTE: what is left may not be an url anymore ('http://a.b»')
